@@ -90,7 +90,11 @@ func runC16(t *testing.T, e *worlds.Env, tier string) (bool, any) {
 			enabled[2], enabled[3] = true, true
 		}
 		var creds map[string]string
-		switch tp.Weighted("creds", 4, 2, 2, 1, 1, 2) {
+		switch tp.Weighted("creds", 4, 2, 2, 1, 1, 2, 2) {
+		case 6:
+			// a user name given as a placeholder that resolves to a real name (the environment
+			// variable is set by the worker): that user's password is the configured one
+			creds = map[string]string{"{env.VERIF_SOCKS_USER}": "s3cret", "gina": "pw"}
 		case 5:
 			// a user name given as a placeholder that resolves to nothing: not a user
 			creds = map[string]string{"{env.VERIF_NEVER_SET}": "nobody", "erin": "pw"}
@@ -112,6 +116,9 @@ func runC16(t *testing.T, e *worlds.Env, tier string) (bool, any) {
 		}
 		valid := map[string]string{}
 		for k, v := range creds {
+			if k == "{env.VERIF_SOCKS_USER}" {
+				k = "frank"
+			}
 			if k != "" && !strings.Contains(k, "{env.VERIF_NEVER_SET}") { // (resolves to the empty name)
 				valid[k] = v
 			}
@@ -164,10 +171,15 @@ func runC16(t *testing.T, e *worlds.Env, tier string) (bool, any) {
 		authVer := byte(1)
 		if serverMethod == 2 {
 			authKind := tp.Weighted("auth", 4, 2, 2, 1, 1, 1, 1)
+			if _, ok := creds["{env.VERIF_SOCKS_USER}"]; ok && tp.Prob(1, 2, "auth-frank") {
+				authKind = 7
+			}
 			if _, ok := creds["{env.VERIF_NEVER_SET}"]; ok && tp.Prob(1, 2, "auth-empty-name") {
 				authKind = 6
 			}
 			switch authKind {
+			case 7:
+				user, pass = "frank", tp.Pick2("frank-pass", "", "s3cret", "pw") // the resolved name with an empty / the right / another user's password
 			case 6:
 				user, pass = "", "nobody" // the password configured for a name that resolves to nothing
 			case 0: // right credentials of some entry
